@@ -58,7 +58,30 @@ PROPS = {
         "bounds": {"quick": "as C03 (same harness, supply/recipient assertions)", "thorough": "as C03"},
         "assumptions": BATCH_ASSUMPTIONS,
     },
+    "C19": {
+        "asserts": ["C19.", "uncaught-panic"],
+        "harnesses": [
+            {"id": "hardfork", "func": "VerifHardfork", "pkg": PEG, "pkgname": "pegnet", "load": ["./node/pegnet"],
+             "params": {"quick": {"smax": 5, "nforks": 2}, "thorough": {"smax": 7, "nforks": 2}},
+             "must_cover": ["refused", "accepted"], "max_witness_replays": 8},
+        ],
+        "bounds": {"quick": "miniature chain: synced height S<=5, legacy prefix L<=S, one symbolic build version (0..4) per tracked height, 2 forks with symbolic height (1..5) and minimum version (-1..4), current version 0..4, optional intermediate restarts; states built through the real InsertSynced/commit",
+                   "thorough": "S<=7"},
+        "assumptions": ["fork heights lie above genesis (height 0 entry of the table is the always-valid base entry)",
+                        "encoding/json round trip of the sync record modelled as identity (json.Marshal/Unmarshal stub)",
+                        "the shipped fork table with mainnet heights is not instantiated (27k rows between forks); the code is uniform in the heights"],
+    },
+    "C16": {
+        "asserts": ["C16.", "uncaught-panic"],
+        "harnesses": [
+            {"id": "supply-3", "func": "VerifSupply", "pkg": CONV, "pkgname": "conversions", "load": ["./node/conversions"],
+             "params": {"quick": {"maxreq": 3, "order": 0}, "thorough": {"maxreq": 4, "order": 0}}, "must_cover": ["fits", "limited"]},
+        ],
+        "bounds": {"quick": "ConversionSupplySet: 1..3 requests, bank and requests full uint64", "thorough": "1..4 requests"},
+        "assumptions": ["math/big as mathematical integers; txids concrete and well-formed"],
+    },
     "C07": {
+        "asserts": ["C07.", "C07a.", "uncaught-panic"],
         "harnesses": [
             {"func": "VerifConvert", "pkg": CONV, "pkgname": "conversions", "load": ["./node/conversions"],
              "must_cover": ["specified-error", "overflow-error", "converted-pip10", "converted-legacy"]},
